@@ -6,6 +6,13 @@ One model behaviour is one row of the reference table: the initial state holds (
   facet 'int'   operands are Python ints (rational scalars become floats, exactly representable or not)
   facet 'frac'  operands are fractions.Fraction, so + - * / and ~ are exact and compared with ==
 
+and every SUB_EVERY-th row (counted per adapter, so every operation meets it) a third time:
+
+  facet 'sub'   Fraction operands again, but every vector / matrix operand is built through a trivial user-defined
+                subclass (class Point(Vec3): pass).  The statement speaks of vectors and matrices, not of exact
+                types: a subclass instance is a vector.  Results are compared by value; their class is reported as
+                the desper.math class they are an instance of (a result may be of the base class or of the subclass).
+
 Operations through a square root or an angle (tol = TRUE in the model), and 'int' rows whose result is a
 proper rational (float division), are compared with tolerance TOL relative to the largest entry of the
 expected result (at least 1).  A root <<s, n, d>> = s*sqrt(n/d) is compared through its signed square, so
@@ -19,6 +26,7 @@ from fractions import Fraction
 from ..tla import to_json
 
 TOL = 1e-9
+SUB_EVERY = 2       # share of the rows that also run with subclass operands: every second one
 
 # operand kinds: V vector, M matrix, Q rational <<p, q>>, I integer scalar, K quarter turns, S letters,
 #                N raw index, B box of six numbers, R rational Mat4 <<integer matrix, common denominator>>
@@ -115,18 +123,24 @@ class VecMathAdapter:
         self.m = importlib.import_module('desper.math')
         self.vec = {2: self.m.Vec2, 3: self.m.Vec3, 4: self.m.Vec4}
         self.mat = {9: self.m.Mat3, 16: self.m.Mat4}
+        self.bases = tuple(self.vec.values()) + tuple(self.mat.values())
+        # what a program may derive from the library's types: nothing added, nothing overridden
+        self.subvec = {n: type('Sub' + c.__name__, (c,), {}) for n, c in self.vec.items()}
+        self.submat = {n: type('Sub' + c.__name__, (c,), {}) for n, c in self.mat.items()}
         self.op = None
+        self.rows = 0
+        self.sub_every = SUB_EVERY
 
     def reset(self, st):
         self.op = st['op']
 
     # -- operands ---------------------------------------------------------------------------------
-    def build(self, kind, v, exact):
+    def build(self, kind, v, exact, sub=False):
         num = Fraction if exact else int
         if kind == 'V':
-            return self.vec[len(v)](*(num(x) for x in v))
+            return (self.subvec if sub else self.vec)[len(v)](*(num(x) for x in v))
         if kind == 'M':
-            return self.mat[len(v)](tuple(num(x) for x in v))
+            return (self.submat if sub else self.mat)[len(v)](tuple(num(x) for x in v))
         if kind == 'Q':
             return Fraction(v[0], v[1]) if exact else (v[0] // v[1] if v[0] % v[1] == 0 else v[0] / v[1])
         if kind == 'I':
@@ -139,33 +153,48 @@ class VecMathAdapter:
             # float entries only when they are exact (denominator a power of two): otherwise the float determinant of
             # a singular matrix is rounding noise and the expected 'unchanged' answer would not be well defined
             d, sc = v
+            mat4 = self.submat[16] if sub else self.m.Mat4
             if exact or sc & (sc - 1):
-                return self.m.Mat4(tuple(Fraction(x, sc) for x in d))
-            return self.m.Mat4(tuple(x / sc for x in d))
+                return mat4(tuple(Fraction(x, sc) for x in d))
+            return mat4(tuple(x / sc for x in d))
         if kind == 'B':
             return tuple(num(x) for x in v)
         return v
 
-    def call(self, op, args, exact):
+    def call(self, op, args, exact, sub=False):
         """Observation (class name, entries, warned) of one evaluation on the real classes."""
         kinds, fn = OPS[op]
         with warnings.catch_warnings(record=True) as caught:
             warnings.simplefilter('always')
             try:
-                r = fn(self.m, *(self.build(k, v, exact) for k, v in zip(kinds, args)))
+                r = fn(self.m, *(self.build(k, v, exact, sub) for k, v in zip(kinds, args)))
             except Exception as ex:  # noqa: compared by class name
                 return ('exc', (type(ex).__name__,), False)
         warned = bool(caught)
         if isinstance(r, tuple):
-            return (type(r).__name__, tuple(r), warned)
+            # the library class the result is an instance of (the result of an operation on subclass operands may
+            # be of either class); anything else - a bare tuple - goes by its own name
+            cls = next((b.__name__ for b in self.bases if isinstance(r, b)), type(r).__name__)
+            return (cls, tuple(r), warned)
         return ('num', (r,), warned)
+
+    def call_facet(self, op, args, facet):
+        return self.call(op, args, facet != 'int', facet == 'sub')
 
     # -- replay protocol --------------------------------------------------------------------------
     def step(self, name, args, pre):
-        return {'int': self.call(pre['op'], pre['args'], False), 'frac': self.call(pre['op'], pre['args'], True)}
+        self.rows += 1
+        self.with_sub = self.rows % self.sub_every == 0
+        obs = {'int': self.call(pre['op'], pre['args'], False), 'frac': self.call(pre['op'], pre['args'], True)}
+        if self.with_sub:
+            obs['sub'] = self.call(pre['op'], pre['args'], True, True)
+        return obs
 
     def expect(self, name, args, pre, post):
-        return {'int': Expect(post['res'], False), 'frac': Expect(post['res'], True)}
+        exp = {'int': Expect(post['res'], False), 'frac': Expect(post['res'], True)}
+        if self.with_sub:
+            exp['sub'] = Expect(post['res'], True)
+        return exp
 
     def finish(self, stats):
         k = 'op:' + self.op
